@@ -57,9 +57,12 @@ impl Body for ScriptBody {
     type Error = tonic::Status;
     fn poll_frame(mut self: Pin<&mut Self>, cx: &mut Context<'_>) -> Poll<Option<Result<Frame<Bytes>, tonic::Status>>> {
         if self.ended {
-            let mut n = self.after_end.lock().unwrap();
-            *n += 1;
-            if *n > 1000 {
+            let n = {
+                let mut g = self.after_end.lock().unwrap();
+                *g += 1;
+                *g
+            };
+            if n > 1000 {
                 panic!("busy-loop");
             }
             return Poll::Ready(None);
